@@ -84,7 +84,8 @@ def renderSend (o : SendOut) : String :=
   s!"{o.channel}/{o.packet.denom.render}/{o.packet.amount}/{o.packet.sender}/{o.packet.receiver}/{optStrStr o.packet.memo}/{o.timeout}"
 
 def renderSub (s : SubMsg) : String :=
-  s!"{s.to}/{s.amount}/{s.denom.render}/{optNatStr s.gas}/{s.replyId}"
+  -- the numeric reply id is private to the contract and not compared (the harness routes replies by the code's own id)
+  s!"{s.to}/{s.amount}/{s.denom.render}/{optNatStr s.gas}"
 
 def renderOutcome (o : Outcome) : Args :=
   [("ack", renderAck o.ack),
@@ -574,7 +575,7 @@ def monitorOp (mu : Mon) (prev : Args) (toks : List String) (implOk : Bool) (out
       -- payout / refund sub-message carries the token's current limit, else the default
       (if (kind == "ibc.recv" || kind == "ibc.ack" || kind == "ibc.timeout") && implOk && out.str "sub" != "-" then
         match (out.str "sub").splitOn "/" with
-        | [_, _, d, g, _] =>
+        | [_, _, d, g] =>
           let expect : Option (Option Nat) :=
             if d.startsWith "cw20:" then
               match pa.find? (·.1 == (d.drop 5).toString) with
